@@ -201,9 +201,6 @@ func (fr *Frame) frameObligations(fc *FuncContract, entry, out *State, pos token
 		}
 		name := fmt.Sprintf("frame#%s:%s", k, shortType(fc.Key))
 		if strings.HasPrefix(k, "G:") || strings.HasPrefix(k, "MD:") || strings.HasPrefix(k, "MV:") {
-			if strings.HasPrefix(k, "G:spawn") {
-				continue
-			}
 			if strings.HasPrefix(k, "G:") {
 				vc.oblige("frame", name, fr.topProps, out.guard, mkEq(h0, v), pos, "undeclared change of "+k)
 			} else {
